@@ -1,13 +1,16 @@
 #!/bin/sh
 # Build the repository (the 5 test targets outside the pinned 70 do not compile: keep going) and run the pinned suite.
 R=${1:-/repo}
-cmake --build $R/_build -- -k 0 >/tmp/baseline_build.log 2>&1
-ctest --test-dir $R/_build -j16 --timeout 900 > /tmp/baseline_ctest.log 2>&1
-python3 - "$R" <<'PY'
+if [ ! -f $R/_build/build.ninja ]; then
+  cmake -G Ninja -S $R -B $R/_build -DBLUETOE_BUILD_UNIT_TESTS=ON -DCMAKE_BUILD_TYPE=RelWithDebInfo -DCMAKE_CXX_FLAGS=-Wno-error >/tmp/baseline_cfg.$$.log 2>&1 || { cat /tmp/baseline_cfg.$$.log; exit 3; }
+fi
+cmake --build $R/_build -- -k 0 >/tmp/baseline_build.$$.log 2>&1
+ctest --test-dir $R/_build -j16 --timeout 900 > /tmp/baseline_ctest.$$.log 2>&1
+python3 - "$R" /tmp/baseline_ctest.$$.log <<'PY'
 import json,re,sys
 base=set(n.split('::')[0] for n in json.load(open('/root/.vp/BASELINE.json'))['stable_pass'])
 passed=set(); failed=set()
-for l in open('/tmp/baseline_ctest.log'):
+for l in open(sys.argv[2]):
     m=re.search(r'Test\s+#\d+:\s+(\S+)\s+\.+\s*(Passed|\*\*\*\S*|Failed|Not Run)',l)
     if m:
         (passed if m.group(2)=='Passed' else failed).add(m.group(1))
@@ -16,3 +19,6 @@ print('pinned tests passed: %d/%d' % (len(base&passed),len(base)))
 if missing: print('NOT PASSED:',missing)
 sys.exit(1 if missing else 0)
 PY
+rc=$?
+rm -f /tmp/baseline_build.$$.log /tmp/baseline_ctest.$$.log /tmp/baseline_cfg.$$.log
+exit $rc
